@@ -1,21 +1,13 @@
-(* Proof/ChanFlowLive.v -- L4: release and abort.  Under
-     1 <= high_watermark  and  (lookahead = 0 or closed outbufs report no bytes)
-   a producer that waits on outbuf_lock is never left behind: either the trigger
-   is pulled, or the I/O thread's next select sees the channel writable, or the
-   I/O thread is already on its way to the notify. *)
+(* Proof/ChanFlowLive.v -- L4: release and abort, for the code as it is ([fixed p]: notify at
+   total <= high_watermark, handle_write drains above the mark, connected re-tested under the
+   lock) and every 0 <= high_watermark, every send_bytes, lookahead and residue.
+   A producer that waits on outbuf_lock is never left behind: either the trigger is pulled, or
+   the I/O thread's next select sees the channel writable, or the I/O thread is already on its
+   way to the notify. *)
 From Coq Require Import List ZArith Bool Arith Lia.
 From WV Require Import Lib.Conc Model.ChanFlow Proof.ChanFlow Proof.ChanFlowReq Proof.ChanFlowFlags Proof.ChanFlowAcct.
 Import ListNotations.
 Local Open Scope Z_scope.
-
-Definition tail_safe (p : params) : Prop := look p = 0%nat \/ residue_ok p = false.
-
-Definition fs_pc (pc : wpc) : bool :=
-  match pc with
-  | WFbTest | WFbAcq | WFbRel | WFlush FS _ | WSub FS _ | WFlushExn FS | WFbPullE FS | WFbWaitE FS
-  | WFbParkedE FS _ | WFbPull FS | WFbWait FS | WFbParked FS _ => true
-  | _ => false
-  end.
 
 (* inside _flush_outbufs_below_high_watermark, holding the lock *)
 Definition w_infb (pc : wpc) : bool :=
@@ -43,16 +35,14 @@ Definition io_j1 (pc : iopc) : bool := match pc with IoWr2 _ | IoWr3 _ | IoSel _
 Definition io_j2 (pc : iopc) : bool := match pc with IoWr3 _ | IoSel _ false => true | _ => false end.
 
 Definition L4 (p : params) (s : state) : Prop :=
-  (look p = 0%nat -> fs_pc (wk s) = false)
-  /\ (residue_ok p = false -> closed_bufs s = true -> pending s = 0)
-  /\ (w_infb (wk s) = true -> closed_bufs s = false)
+  (w_infb (wk s) = true -> closed_bufs s = false)
   /\ (pull_or_wait (wk s) = true -> hw p < total s)
   /\ (e_wait (wk s) = true -> will_close s = true)
   /\ (w_parked s = true -> connected s = false -> is_hcnotify (io s) = true)
-  /\ (parked_loop (wk s) = true -> closed_bufs s = false -> total s < hw p ->
+  /\ (parked_loop (wk s) = true -> closed_bufs s = false -> total s <= hw p ->
       k_set (io s) = true \/ (k_hw (io s) = true /\ will_close s = true))
-  /\ (1 <= hw p -> io_j1 (io s) = true -> loop_waiting (wk s) = true -> pulled s = true)
-  /\ (1 <= hw p -> io_j2 (io s) = true -> e_waiting (wk s) = true -> pulled s = true).
+  /\ (io_j1 (io s) = true -> loop_waiting (wk s) = true -> pulled s = true)
+  /\ (io_j2 (io s) = true -> e_waiting (wk s) = true -> pulled s = true).
 
 Lemma L4_init p : L4 p init.
 Proof. unfold L4, init, w_parked; cbn. repeat split; intros; try discriminate; try reflexivity. Qed.
@@ -69,7 +59,8 @@ Ltac core4 := spec; arith_spec; disj; conj; try assumption; try absurd_hyp; try 
   try (left; reflexivity); try (right; split; [reflexivity | assumption]); try (exfalso; zl);
   try (match goal with H1 : ?x = true, H2 : ?x = false |- _ => rewrite H1 in H2; discriminate H2 end).
 Ltac bsplit := match goal with H : ?b = _ -> _ |- _ => is_var b; destruct b end.
-Ltac fin4 := dk; unfold L4, w_parked; unf; cbn; gifs; cbn; repeat split; try assumption; intros;
+Ltac nb := repeat match goal with H : negb _ = false |- _ => apply negb_false_iff in H end.
+Ltac fin4 := nb; dk; unfold L4, w_parked; unf; cbn; gifs; cbn; repeat split; try assumption; intros;
   spec; conj; try assumption; try absurd_hyp; try exact I;
   b2p; subst; cbn in *; rewrite ?orb_true_r in *; b2p; core4;
   try (disj; conj; core4);
@@ -79,7 +70,9 @@ Ltac fin4 := dk; unfold L4, w_parked; unf; cbn; gifs; cbn; repeat split; try ass
 Section Step.
   Variable p : params.
   Hypothesis Hhw : 0 <= hw p.
-  Hypothesis Hts : tail_safe p.
+  Hypothesis Hf1 : fx_notify_le p = true.
+  Hypothesis Hf2 : fx_drain p = true.
+  Hypothesis Hf3 : fx_recheck p = true.
 
   Lemma L4_step_io s r res s' l :
     Lall p s -> L4 p s -> step_io p s r res = Some (s', l) -> L4 p s'.
@@ -90,10 +83,10 @@ Section Step.
     destruct H1 as (Ha & Hq & _ & _ & Hl & _).
     destruct H2 as (F1 & F2 & F3 & F4 & F5 & F6 & F7 & F8 & F9).
     destruct H3 as (A1 & A3 & A4 & _ & _ & A7 & _).
-    destruct H as (T1 & T2 & N & P & W & M & K & J1 & J2).
+    destruct H as (N & P & W & M & K & J1 & J2).
     unfold step_io in E. cbn [ChanFlow.io] in E.
     destruct io0; cbn in A1, A4, A7, F2, F3, F7, F8, Ho, Hc, Hx, M, K, J1, J2.
-    all: cbn in E; unf; cbn in E.
+    all: cbn in E; unf; cbn in E; rewrite ?Hf1, ?Hf2, ?Hf3 in E; cbn in E.
     all: split_ifs E; try discriminate; try inv_some.
     all: fin4.
   Qed.
@@ -107,11 +100,10 @@ Section Step.
     destruct H1 as (Ha & Hq & _ & _ & Hl & _).
     destruct H2 as (F1 & F2 & F3 & F4 & F5 & F6 & F7 & F8 & F9).
     destruct H3 as (A1 & A3 & A4 & _ & _ & A7 & _).
-    destruct H as (T1 & T2 & N & P & W & M & K & J1 & J2).
-    destruct Hts as [Hlk|Hres].
+    destruct H as (N & P & W & M & K & J1 & J2).
     all: unfold step_w in E; cbn [ChanFlow.wk] in E.
-    all: destruct wk0; cbn in A1, F6, F9, Ho, Hc, Hx, Hwok, Ha, Hq, T1, N, P, W, M, K, J1, J2.
-    all: cbn in E; unf; cbn in E.
+    all: destruct wk0; cbn in A1, F6, F9, Ho, Hc, Hx, Hwok, Ha, Hq, N, P, W, M, K, J1, J2.
+    all: cbn in E; unf; cbn in E; rewrite ?Hf1, ?Hf2, ?Hf3 in E; cbn in E.
     all: split_ifs E; try discriminate; try inv_some.
     all: fin4.
   Qed.
@@ -123,7 +115,7 @@ Section Step.
     - apply L4_step_w.
     - intros _ H E. ds s. unfold step_tail in E. destruct n as [|[|[|[|[|[|n]]]]]]; cbn in E; try discriminate.
       all: split_ifs E; try discriminate; inv_some; unfold L4, w_parked in *; cbn in *;
-        destruct H as (T1 & T2 & N & P & W & M & K & J1 & J2); repeat split; auto.
+        destruct H as (N & P & W & M & K & J1 & J2); repeat split; auto.
     - intros _ H E. ds s. destruct a; cbn in E; split_ifs E; try discriminate; inv_some; exact H.
   Qed.
 
@@ -136,20 +128,23 @@ Section Step.
   Qed.
 End Step.
 
-(* ---- C12_release (partial) ------------------------------------------------ *)
+(* ---- C12_release ----------------------------------------------------------- *)
 
 Lemma parked_cases pc : (match pc with WFbParked _ false | WFbParkedE _ false => true | _ => false end) = true ->
   loop_waiting pc = true \/ e_waiting pc = true.
 Proof. destruct pc; cbn; try discriminate; destruct nt; cbn; auto; discriminate. Qed.
 
-Theorem release_blocked p sched : 1 <= hw p -> tail_safe p ->
+Lemma parked_cases2 pc : (match pc with WFbParked _ false | WFbParkedE _ false => true | _ => false end) = true ->
+  parked_loop pc = true \/ e_wait pc = true.
+Proof. destruct pc; cbn; try discriminate; destruct nt; cbn; auto; discriminate. Qed.
+
+Theorem release_blocked p sched : 0 <= hw p -> fixed p ->
   let s := run p sched in
   io_blocked s = true -> client_reads s = true -> w_parked s = true -> False.
 Proof.
-  intros Hhw Hts s B C Pk.
-  assert (H0 : 0 <= hw p) by lia.
-  destruct (L4_run p H0 Hts sched) as [_ L]. fold s in L.
-  destruct L as (_ & _ & _ & _ & _ & _ & _ & J1 & J2).
+  intros Hhw (Hf1 & Hf2 & Hf3) s B C Pk.
+  destruct (L4_run p Hhw Hf1 Hf2 Hf3 sched) as [_ L]. fold s in L.
+  destruct L as (_ & _ & _ & _ & _ & J1 & J2).
   unfold io_blocked, client_reads, w_parked, rdy_w in *.
   destruct (io s) eqn:Eio; try discriminate.
   apply andb_true_iff in C. destruct C as [C1 C2]. apply negb_true_iff in C2.
@@ -157,45 +152,40 @@ Proof.
   apply orb_false_iff in B1. destruct B1 as [Ep _].
   rewrite C1 in B2. cbn in B2. rewrite andb_true_r in B2. subst w.
   destruct (parked_cases _ Pk) as [Q|Q].
-  - specialize (J1 Hhw eq_refl Q). congruence.
-  - specialize (J2 Hhw eq_refl Q). congruence.
+  - specialize (J1 eq_refl Q). congruence.
+  - specialize (J2 eq_refl Q). congruence.
 Qed.
 
-Lemma parked_cases2 pc : (match pc with WFbParked _ false | WFbParkedE _ false => true | _ => false end) = true ->
-  parked_loop pc = true \/ e_wait pc = true.
-Proof. destruct pc; cbn; try discriminate; destruct nt; cbn; auto; discriminate. Qed.
-
-Theorem release_idle p sched : 1 <= hw p -> sb p <= hw p -> tail_safe p ->
+Theorem release_idle p sched : 0 <= hw p -> fixed p ->
   let s := run p sched in
   io_idle p s = true -> client_reads s = true -> w_parked s = true -> False.
 Proof.
-  intros Hhw Hsb Hts s B C Pk.
+  intros Hhw Hfx s B C Pk.
   unfold io_idle in B. apply orb_true_iff in B. destruct B as [B|B].
   - eapply release_blocked; eauto.
-  - assert (H0 : 0 <= hw p) by lia.
-    destruct (L4_run p H0 Hts sched) as [(_ & _ & F & _) L]. fold s in L, F.
-    destruct L as (_ & _ & _ & _ & W & _ & K & _ & _).
+  - destruct Hfx as (Hf1 & Hf2 & Hf3).
+    destruct (L4_run p Hhw Hf1 Hf2 Hf3 sched) as [(_ & _ & F & _) L]. fold s in L, F.
+    destruct L as (_ & _ & W & _ & K & _ & _).
     destruct F as (_ & _ & _ & _ & _ & F6 & _).
-    unfold io_spinning, w_parked in *.
+    unfold io_spinning, w_parked in *. rewrite Hf2 in B. cbn in B.
     destruct (io s) eqn:Eio; try discriminate. destruct r; try discriminate. destruct w; try discriminate.
     repeat (apply andb_true_iff in B; destruct B as [B ?]).
     b2p.
     destruct (parked_cases2 _ Pk) as [Q|Q].
     + destruct (closed_bufs s) eqn:Ec.
       * destruct (F6 eq_refl) as [T _]. lia.
-      * assert (T : total s < hw p) by lia.
-        destruct (K Q eq_refl T) as [X|[X _]]; cbn in X; discriminate.
+      * match goal with T : total s <= hw p |- _ => destruct (K Q eq_refl T) as [X|[X _]]; cbn in X; discriminate end.
     + specialize (W Q). congruence.
 Qed.
 
-(* ---- C12_abort (partial) ---------------------------------------------------- *)
+(* ---- C12_abort ------------------------------------------------------------------ *)
 
-Theorem abort_notified p sched : 0 <= hw p -> tail_safe p ->
+Theorem abort_notified p sched : 0 <= hw p -> fixed p ->
   let s := run p sched in
   w_parked s = true -> connected s = false -> is_hcnotify (io s) = true.
 Proof.
-  intros H0 Hts s Pk C. destruct (L4_run p H0 Hts sched) as [_ L]. fold s in L.
-  destruct L as (_ & _ & _ & _ & _ & M & _). auto.
+  intros H0 (Hf1 & Hf2 & Hf3) s Pk C. destruct (L4_run p H0 Hf1 Hf2 Hf3 sched) as [_ L]. fold s in L.
+  destruct L as (_ & _ & _ & M & _). auto.
 Qed.
 
 (* the step that follows the notify: write_soon raises ClientDisconnected, the
